@@ -303,6 +303,7 @@ Weighted ==
     [] Focus = "probe"  -> IF Probes = {} THEN (GDeployProbe \/ GFinalise)
                            ELSE (GProbeCall \/ GProbeCall \/ GProbeTransact \/ GProbeTransact \/ GFinalise \/ GFinalise \/ GMine \/ GMineFar
                                   \/ GReorg \/ GRestart \/ GCommit \/ GLedger \/ GDeployProbe)
+    [] Focus = "crash"  -> GCall \/ GCall \/ GDeploy \/ GLedger \/ GTransact \/ GFinalise \/ GFinalise \/ GFinalise \/ GCommit \/ GCommit \/ GReorg \/ GMine
     [] Focus = "commit" -> GCall \/ GDeploy \/ GFinalise \/ GFinalise \/ GCommit \/ GClear \/ GRestart \/ GTransact \/ GLedger \/ GMine
     [] OTHER -> GDeploy \/ GCall \/ GCall \/ GLedger \/ GUserLedger \/ GTransact \/ GFinalise \/ GFinalise \/ GMine
                  \/ GCommit \/ GClear \/ GRestart \/ GReorg \/ GBad
